@@ -139,6 +139,10 @@ func optionPart(opt *Option) string {
 // options, the non-option arguments, and the context of the last argument. It
 // tolerates unknown options, assuming that they take optional arguments.
 func Complete(args []string, specs []*OptionSpec, cfg Config) ([]*Option, []string, Context) {
+	if len(args) == 0 {
+		// No last argument: the same context as an empty last argument.
+		return nil, nil, Context{Type: OptionOrArgument}
+	}
 	opts, nonOptArgs, opt, stopOpt := parse(args[:len(args)-1], specs, cfg)
 
 	arg := args[len(args)-1]
